@@ -16,6 +16,7 @@ import (
 
 	"github.com/tetratelabs/wazero"
 	"github.com/tetratelabs/wazero/api"
+	"github.com/tetratelabs/wazero/experimental"
 	"github.com/tetratelabs/wazero/internal/wasm"
 	binaryformat "github.com/tetratelabs/wazero/internal/wasm/binary"
 	c "github.com/tetratelabs/wazero/internal/zz_verif/common"
@@ -162,7 +163,8 @@ func rtConfig(eng string) wazero.RuntimeConfig {
 	} else {
 		rc = wazero.NewRuntimeConfigInterpreter()
 	}
-	return rc.WithCloseOnContextDone(true)
+	// the tail-call proposal is on: a quarter of the second generator's modules end functions in return_call[_indirect]
+	return rc.WithCloseOnContextDone(true).WithCoreFeatures(api.CoreFeaturesV2 | experimental.CoreFeaturesTailCall)
 }
 
 var engines = []string{"interp", "compiler"}
@@ -309,6 +311,30 @@ func suppliers(m *wasm.Module) (map[string][]byte, []string, string) {
 						return nil, nil, "unknown result type"
 					}
 					body = append(body, z...)
+					if r == c.I32 || r == c.I64 { // integer results depend on every integer parameter: acc*31 + p
+						for pi, pt := range ft.Params {
+							if pt != c.I32 && pt != c.I64 {
+								continue
+							}
+							if r == c.I32 {
+								body = append(body, c.I32Const(31)...)
+								body = append(body, 0x6c)
+								body = append(body, c.LocalGet(uint32(pi))...)
+								if pt == c.I64 {
+									body = append(body, 0xa7) // i32.wrap_i64
+								}
+								body = append(body, 0x6a)
+							} else {
+								body = append(body, c.I64Const(31)...)
+								body = append(body, 0x7e)
+								body = append(body, c.LocalGet(uint32(pi))...)
+								if pt == c.I32 {
+									body = append(body, 0xad) // i64.extend_i32_u
+								}
+								body = append(body, 0x7c)
+							}
+						}
+					}
 				}
 				s.mod.Types = append(s.mod.Types, c.FT(ft.Params, ft.Results))
 				s.mod.Funcs = append(s.mod.Funcs, c.U32(uint32(len(s.mod.Types)-1)))
